@@ -3,6 +3,7 @@
 // printing rules of DESIGN.md section 6 (parenthesised sub-expressions start with an identifier), and
 // later evaluated on the reported solution without asking the network anything.
 #pragma once
+#include <algorithm>
 #include "../core/common.h"
 #include <gmpxx.h>
 #include <map>
@@ -213,6 +214,7 @@ namespace plan
     int cls = -1; // declared inside class (state variable) or -1 for global
     int kind = 0; // 0 plain, 1 Interval, 2 Impulse (global predicates); class predicates of SVs are Intervals
     std::vector<std::string> rparams; // for a sub-predicate: the inherited parameters first, its own from 'own_from' on
+    std::vector<std::string> fixed_params; // parameters every goal, fact and sub-goal must give a constant for (they are factors of a product in the rule)
     int super = -1;                   // index of the predicate it extends (global predicates only), or -1
     size_t own_from = 0;
     std::vector<std::shared_ptr<BodyItem>> body;
@@ -275,7 +277,8 @@ namespace plan
     int n_formulas = 0;
     bool has_rr = false;
     std::vector<std::string> rr_names;
-    std::vector<mpq_class> rr_caps;
+    std::vector<mpq_class> rr_caps;   // the capacity, or the constant c of a capacity given as `c - x`
+    std::vector<std::string> rr_cap_var; // "" or the x of `c - x`
     std::vector<int> sv_insts; // indices into insts of state-variable instances
     std::set<std::string> mentioned; // root names of every path used in some constraint / argument
 
@@ -315,6 +318,27 @@ namespace plan
         out = eff_body(preds[p.super]);
       out.insert(out.end(), p.body.begin(), p.body.end());
       return out;
+    }
+    bool param_fixed(int p, const std::string &name) const
+    {
+      for (; p >= 0; p = preds[p].super)
+        if (std::find(preds[p].fixed_params.begin(), preds[p].fixed_params.end(), name) != preds[p].fixed_params.end())
+          return true;
+      return false;
+    }
+    bool any_param_fixed(int p) const
+    {
+      for (; p >= 0; p = preds[p].super)
+        if (!preds[p].fixed_params.empty())
+          return true;
+      return false;
+    }
+    bool pred_extends(int q, int p) const
+    {
+      for (; q >= 0; q = preds[q].super)
+        if (q == p)
+          return true;
+      return false;
     }
     bool enum_related(int e1, int e2) const
     {
